@@ -34,6 +34,7 @@ var VerifSim struct {
 
 	WallNow    func() time.Time
 	RandInt31n func(n int32) int32
+	RandFloat  func() float64
 
 	// WrapLeveldbStorage, when set, wraps the file storage of every on-disk leveldb.
 	WrapLeveldbStorage func(path string, s storage.Storage) storage.Storage
@@ -70,6 +71,16 @@ func randInt31n(n int32) int32 {
 }
 
 func gcloopEnabled() bool { return !VerifSim.DisableGCLoop }
+
+func init() {
+	// randFloat (row-sample filter) is already a package variable: route it through the seam.
+	randFloat = func() float64 {
+		if f := VerifSim.RandFloat; f != nil {
+			return f()
+		}
+		return rand.Float64()
+	}
+}
 
 type serverMutex struct {
 	real sync.Mutex
